@@ -63,7 +63,9 @@ def main():
         k = counters.get(prop, 0) + 1
         counters[prop] = k
         sid = "%s-%s%d" % (prop, letter, k)
-        last = (later.get(cand) or first[cand])[-1]
+        allr = later.get(cand) or first[cand]
+        detecting = [r for r in allr if r["detected_by"]]
+        last = detecting[-1] if detecting else allr[-1]
         d = os.path.join(VERIF, "seeded", sid)
         os.makedirs(d, exist_ok=True)
         shutil.copyfile(cand + "/patch.diff", d + "/patch.diff")
